@@ -645,6 +645,8 @@ def affine(fn, ref, depth=0):
             return comb(out, affine(fn, path[0]['p'], depth + 1))
         m = None
         sz = {'i8*': 8, 'i8**': 8, 'i64': 8, 'i32': 4, 'i16': 2}.get(srcty)
+        if sz is None and srcty.endswith('*'):
+            sz = 8
         if sz and len(path) == 1 and 'p' in path[0]:
             idx = affine(fn, path[0]['p'], depth + 1)
             return comb(out, {t: v * sz for t, v in idx.items()})
@@ -697,3 +699,22 @@ def expr_str(fn, ref, depth=0):
     if ins.op == 'getelementptr':
         return '&' + fn.ap(ref).desc()
     return '%s(%s)' % (ins.op, ','.join(expr_str(fn, o, depth + 1) for o in ins.ops))
+
+
+def reaches_point(fn, start, point, blocked=(), include_start=False):
+    """is program point `point` (Inst or EdgePoint) reachable from `start` avoiding `blocked`?"""
+    r = fn.reachable_from(start, blocked=blocked, include_start=include_start)
+    b = set(x.id for x in blocked)
+    if isinstance(point, EdgePoint):
+        return point.term in r and point.term.id not in b and point.bto in fn.succs(fn.blocks[point.bfrom])
+    return point in r
+
+
+def find_unit_with(ctx, fl, fname, candidates=None):
+    """translation unit (of flavour fl) whose IR defines function `fname`"""
+    files = candidates or sorted(ctx.db['src'][fl])
+    for f in files:
+        m = ctx.ssa(f, fl)
+        if m.fn(fname) is not None:
+            return f
+    return None
